@@ -78,8 +78,11 @@ def layout(V, accel, kind, bits, bw, bh, kw, kh, dil, stride, lut, scalar, upsca
     rs = {0: resampling_mode.NONE, 1: resampling_mode.NEAREST, 2: resampling_mode.TRANSPOSE}[upscale]
     sx, sy = stride, (stride if stride_y is None else stride_y)
     kernel = Kernel(kw, kh, sx, sy, dil, dil)
-    ifm_shape = Block(ofm_w, ofm_h, ifm_d)
-    ifm2_shape = Block(ofm_w, ofm_h, ifm_d) if (kind == "ew" and not scalar) else None
+    # the IFM's own height and width are independent of the OFM's (upscaling, strides, valid padding): symbolic
+    ifm_h = V.int("ifm_h", 1, 65536)
+    ifm_w_ = V.int("ifm_w", 1, 65536)
+    ifm_shape = Block(ifm_w_, ifm_h, ifm_d)
+    ifm2_shape = Block(ifm_w_, ifm_h, ifm_d) if (kind == "ew" and not scalar) else None
     with core.shims(*_shims()):
         cfg = aa.try_block_config(Block(bw, bh, bd), arch, bt, Block(ofm_w, ofm_h, ofm_d), ifm_shape, ifm2_shape, bool(scalar), bits,
                                   bool(partk), kernel, 2 if lut else 0, bool(scaled), rs)
